@@ -19,6 +19,10 @@ type failover interface {
 	// witnesses in order to trigger a failover to a new leader.
 	Quorum() int
 
+	// IsWitness indicates if a report from the given reporter currently
+	// counts towards the quorum.
+	IsWitness(reporter string) bool
+
 	// Timeout returns the time elapsed before expiring a failover. Each time a
 	// report is made, the failover's timeout is reset. Upon timing out, the
 	// timer for the leader failover is removed.
@@ -59,7 +63,13 @@ func (f *failoverStatus) report(ctx context.Context, witness string) *status.Sta
 	f.mu.Lock()
 
 	f.witnesses[witness] = struct{}{}
-	leaderFailed := len(f.witnesses) > f.failover.Quorum()
+	reports := 0
+	for reporter := range f.witnesses {
+		if f.failover.IsWitness(reporter) {
+			reports++
+		}
+	}
+	leaderFailed := reports > f.failover.Quorum()
 
 	if leaderFailed {
 		if f.timer != nil {
@@ -114,6 +124,14 @@ func (p *partitionFailover) Quorum() int {
 	return (p.partition.ISRSize() - 1) / 2
 }
 
+// IsWitness indicates if the reporter is currently an in-sync follower of the
+// partition. Reports from the leader itself and from brokers which are not in
+// the ISR do not count towards the quorum.
+func (p *partitionFailover) IsWitness(reporter string) bool {
+	leader, _ := p.partition.GetLeader()
+	return reporter != leader && p.partition.inISR(reporter)
+}
+
 // Timeout returns the configured ReplicaMaxLeaderTimeout.
 func (p *partitionFailover) Timeout() time.Duration {
 	return p.timeout
@@ -153,6 +171,11 @@ func newGroupFailoverStatus(group *consumerGroup, timeout time.Duration,
 // Quorum returns members / 2.
 func (g *groupFailover) Quorum() int {
 	return len(g.group.GetMembers()) / 2
+}
+
+// IsWitness indicates if the reporter is currently a member of the group.
+func (g *groupFailover) IsWitness(reporter string) bool {
+	return g.group.IsMember(reporter)
 }
 
 // Timeout returns the configured GroupsCoordinatorTimeout.
